@@ -40,7 +40,9 @@ struct Ctx18 {
     as_dep: OutPoint,
     world_ntx: usize,
     news: Vec<NewTx>,
-    relay_peers: Vec<(PeerIndex, PeerId)>,
+    /// (current session, identity, name): a peer that reconnects gets a new session index but keeps its identity,
+    /// and "announced to a given peer at most once" is about the identity
+    relay_peers: Vec<(PeerIndex, PeerId, String)>,
 }
 
 fn refid(sim: &Sim, c: &Ctx18, h: &packed::Byte32) -> i64 {
@@ -184,6 +186,25 @@ fn build_new(sim: &Sim, c: &Ctx18, rng: &mut StdRng, live: &[(usize, usize)]) ->
     Some(NewTx { view, desc })
 }
 
+/// The set of peers a pending hash has been announced to is keyed by whatever the implementation keys it by.
+trait AnnKey {
+    fn is_peer(&self, session: PeerIndex, id: &PeerId) -> bool;
+}
+impl AnnKey for PeerId {
+    fn is_peer(&self, _session: PeerIndex, id: &PeerId) -> bool {
+        self == id
+    }
+}
+impl AnnKey for PeerIndex {
+    fn is_peer(&self, session: PeerIndex, _id: &PeerId) -> bool {
+        *self == session
+    }
+}
+
+fn name_of(c: &Ctx18, session: PeerIndex) -> String {
+    c.relay_peers.iter().find(|(p, _, _)| *p == session).map(|(_, _, n)| n.clone()).unwrap_or_else(|| pname(session))
+}
+
 fn pool_state(sim: &Sim, c: &Ctx18) -> Value {
     let pending = sim.client().pending.read().unwrap();
     let mut members = Vec::new();
@@ -192,7 +213,7 @@ fn pool_state(sim: &Sim, c: &Ctx18) -> Value {
         if let Some((_, _, peers)) = pending.get(&n.view.hash()) {
             let id = c.world_ntx + k + 1;
             members.push(id);
-            let names: Vec<String> = c.relay_peers.iter().filter(|(_, pid)| peers.contains(pid)).map(|(p, _)| pname(*p)).collect();
+            let names: Vec<String> = c.relay_peers.iter().filter(|(p, pid, _)| peers.iter().any(|k| k.is_peer(*p, pid))).map(|(_, _, n)| n.clone()).collect();
             ann.insert(id.to_string(), json!(names));
         }
     }
@@ -211,13 +232,13 @@ fn relay_sent(sim: &mut Sim, c: &Ctx18) -> Value {
             match msg.to_enum() {
                 packed::RelayMessageUnionReader::RelayTransactionHashes(r) => {
                     let ids: Vec<i64> = r.tx_hashes().iter().map(|h| refid(sim, c, &h.to_entity())).collect();
-                    out.push(json!({"to": pname(s.peer), "kind": "hashes", "ts": ids}));
+                    out.push(json!({"to": name_of(c, s.peer), "kind": "hashes", "ts": ids}));
                 }
                 packed::RelayMessageUnionReader::RelayTransactions(r) => {
                     let ids: Vec<i64> = r.transactions().iter().map(|t| refid(sim, c, &t.transaction().to_entity().calc_tx_hash())).collect();
-                    out.push(json!({"to": pname(s.peer), "kind": "txs", "ts": ids}));
+                    out.push(json!({"to": name_of(c, s.peer), "kind": "txs", "ts": ids}));
                 }
-                _ => out.push(json!({"to": pname(s.peer), "kind": "other", "ts": []})),
+                _ => out.push(json!({"to": name_of(c, s.peer), "kind": "other", "ts": []})),
             }
         }
     }
@@ -255,8 +276,9 @@ fn scenario(rng: &mut StdRng, sc: usize, real_out: &mut dyn Write, kv: &HashMap<
         .into_iter()
         .position(|d| d.raw_data().as_ref() == crate::verif::world::always_success_data())
         .expect("always_success cell in genesis");
-    let relay_peers: Vec<(PeerIndex, PeerId)> = (0..3).map(|k| (PeerIndex::new(11 + k), PeerId::random())).collect();
-    for (p, pid) in relay_peers.iter() {
+    let relay_peers: Vec<(PeerIndex, PeerId, String)> = (0..3).map(|k| (PeerIndex::new(11 + k), PeerId::random(), pname(PeerIndex::new(11 + k)))).collect();
+    let mut next_session = 20usize;
+    for (p, pid, _) in relay_peers.iter() {
         let addr: Multiaddr = format!("/ip4/127.0.0.1/tcp/{}/p2p/{}", 9000 + p.value(), pid.to_base58()).parse().expect("multiaddr");
         sim.client().net.set_addr(*p, addr);
     }
@@ -295,7 +317,7 @@ fn scenario(rng: &mut StdRng, sc: usize, real_out: &mut dyn Write, kv: &HashMap<
         *lines += 1;
     };
     let _ = sim.client().net.take_sent();
-    emit(json!({"ev": "Reset", "limit": limit, "stored": Value::Object(stored), "peers": c.relay_peers.iter().map(|(p, _)| pname(*p)).collect::<Vec<_>>(),
+    emit(json!({"ev": "Reset", "limit": limit, "stored": Value::Object(stored), "peers": c.relay_peers.iter().map(|(_, _, n)| n.clone()).collect::<Vec<_>>(),
         "pool": pool_state(&sim, &c)}), &mut lines);
     let mut opened: Vec<PeerIndex> = Vec::new();
     let steps = arg_u64(kv, "steps", 120);
@@ -396,7 +418,8 @@ fn scenario(rng: &mut StdRng, sc: usize, real_out: &mut dyn Write, kv: &HashMap<
             }
         } else if r < 72 {
             // a relay peer opens / closes the protocol
-            let (p, _) = c.relay_peers[rng.gen_range(0..c.relay_peers.len())].clone();
+            let which = rng.gen_range(0..c.relay_peers.len());
+            let (p, pid, name) = c.relay_peers[which].clone();
             if opened.contains(&p) {
                 let cl = sim.client_mut();
                 let nc = std::sync::Arc::clone(&cl.nc_relay);
@@ -406,8 +429,19 @@ fn scenario(rng: &mut StdRng, sc: usize, real_out: &mut dyn Write, kv: &HashMap<
                 }
                 opened.retain(|q| *q != p);
                 let sent = relay_sent(&mut sim, &c);
-                emit(json!({"ev": "RelayDisconnect", "a": {"p": pname(p)}, "sent": sent, "pool": pool_state(&sim, &c)}), &mut lines);
+                emit(json!({"ev": "RelayDisconnect", "a": {"p": name}, "sent": sent, "pool": pool_state(&sim, &c)}), &mut lines);
             } else {
+                // every other time the peer comes back on a NEW session (same identity)
+                let p = if rng.gen_bool(0.5) {
+                    let np = PeerIndex::new(next_session);
+                    next_session += 1;
+                    let addr: Multiaddr = format!("/ip4/127.0.0.1/tcp/{}/p2p/{}", 9000 + np.value(), pid.to_base58()).parse().expect("multiaddr");
+                    sim.client().net.set_addr(np, addr);
+                    c.relay_peers[which].0 = np;
+                    np
+                } else {
+                    p
+                };
                 let cl = sim.client_mut();
                 let nc = std::sync::Arc::clone(&cl.nc_relay);
                 let r = guard(|| crate::verif::ctx::block_on(cl.relay.connected(nc, p, "verif")));
@@ -416,7 +450,7 @@ fn scenario(rng: &mut StdRng, sc: usize, real_out: &mut dyn Write, kv: &HashMap<
                 }
                 opened.push(p);
                 let sent = relay_sent(&mut sim, &c);
-                emit(json!({"ev": "RelayConnect", "a": {"p": pname(p)}, "sent": sent, "pool": pool_state(&sim, &c)}), &mut lines);
+                emit(json!({"ev": "RelayConnect", "a": {"p": name}, "sent": sent, "pool": pool_state(&sim, &c)}), &mut lines);
             }
         } else if r < 90 {
             if opened.is_empty() {
@@ -433,7 +467,7 @@ fn scenario(rng: &mut StdRng, sc: usize, real_out: &mut dyn Write, kv: &HashMap<
             if c.news.is_empty() {
                 continue;
             }
-            let (p, _) = c.relay_peers[rng.gen_range(0..c.relay_peers.len())].clone();
+            let (p, _, _) = c.relay_peers[rng.gen_range(0..c.relay_peers.len())].clone();
             let ks: Vec<usize> = (0..rng.gen_range(1..=3)).map(|_| rng.gen_range(0..c.news.len())).collect();
             let hashes: Vec<packed::Byte32> = ks.iter().map(|k| c.news[*k].view.hash()).collect();
             let content = packed::GetRelayTransactions::new_builder().tx_hashes(hashes.pack()).build();
@@ -443,7 +477,7 @@ fn scenario(rng: &mut StdRng, sc: usize, real_out: &mut dyn Write, kv: &HashMap<
                 panics.push(m);
             }
             let sent = relay_sent(&mut sim, &c);
-            emit(json!({"ev": "GetRelayTxs", "a": {"p": pname(p), "ts": ks.iter().map(|k| c.world_ntx + k + 1).collect::<Vec<_>>()},
+            emit(json!({"ev": "GetRelayTxs", "a": {"p": name_of(&c, p), "ts": ks.iter().map(|k| c.world_ntx + k + 1).collect::<Vec<_>>()},
                 "sent": sent, "pool": pool_state(&sim, &c)}), &mut lines);
         }
     }
